@@ -58,6 +58,7 @@ __CPROVER_requires(%(VP)s)
 __CPROVER_requires(%(lv)s.n < (1UL << 60))
 __CPROVER_assigns(%(lv)s, %(cur)s, umap_present, %(G)s)
 __CPROVER_ensures(g_exc == 0 || g_exc == EXC_CdnsDecoderException || g_exc == EXC_CdnsDecoderEnd)
+__CPROVER_ensures((g_raised && !@RZ0) ==> g_exc != 0)
 __CPROVER_ensures(g_exc == 0 ==> (rd_depth == 1 && rd_topmap && !rd_expect_val && !rd_break_pending && !rd_bad && !rd_done1 && rd_cnt1 == @C0 + 1 && (rd_indef1 ? rd_left1 == @L0 : rd_left1 + 1 == @L0)))
 __CPROVER_ensures(g_exc == 0 ==> (rd_curkey == @K0 && g_kseen == @S0))
 '''
@@ -80,7 +81,7 @@ def inst_loops(k):
         lv = 'cap->base.' + name
         txt = '''
   __CPROVER_assigns(length, %(lv)s, %(cur)s, umap_present, %(G)s)
-  __CPROVER_loop_invariant(g_exc == 0 && !rd_bad && !rd_break_pending && rd_topmap && !rd_done1)
+  __CPROVER_loop_invariant(g_exc == 0 && !rd_bad && !rd_break_pending && rd_topmap && !rd_done1 && (g_raised != 0) == (@RZ0 != 0))
   __CPROVER_loop_invariant(indef ? (rd_depth == 2 && rd_indef2) : (length > 0 ? (rd_depth == 2 && !rd_indef2 && rd_left2 == length) : (rd_depth == 1 && !rd_expect_val)))
   __CPROVER_loop_invariant(rd_idx2 <= (1UL << 60) && %(rel)s)
   __CPROVER_loop_invariant(rd_depth == 2 ? (rd_expect_val && rd_cnt1 == @C0 && rd_left1 == @L0) : (rd_cnt1 == @C0 + 1 && (rd_indef1 ? rd_left1 == @L0 : rd_left1 + 1 == @L0)))
@@ -147,11 +148,12 @@ def resolved(lst, g):
 
 
 BR_C = '''
-__CPROVER_requires(__CPROVER_w_ok($this, sizeof(*$this)) && __CPROVER_r_ok($2, sizeof(*$2)) && g_exc == 0 && RD_FRESH)
+__CPROVER_requires(__CPROVER_w_ok($this, sizeof(*$this)) && __CPROVER_r_ok($2, sizeof(*$2)) && g_exc == 0 && RD_FRESH && !g_raised)
 __CPROVER_requires(g_wts_qr == &$this->base.m_query_responses.wv.time_offset.val && g_wts_mm == &$this->base.m_malformed_messages.wv.time_offset.val)
 __CPROVER_requires(G_qr.n == 0 && G_mm.n == 0)
 __CPROVER_assigns(__CPROVER_object_whole($this), G_qr, G_mm, seq_QueryResponse__cur, seq_MalformedMessage__cur, seq_BlockParameters__cur, umap_AddressEventCount_u64__cur, umap_present, ''' + G + ''')
 __CPROVER_ensures(g_exc == 0 || g_exc == EXC_CdnsDecoderException || g_exc == EXC_CdnsDecoderEnd || g_exc == EXC_runtime_error)
+__CPROVER_ensures(g_raised ==> g_exc != 0)
 __CPROVER_ensures(g_exc == 0 ==> RD_MAP_DONE)
 __CPROVER_ensures((g_exc == 0 && g_K == 0) ==> g_kseen > 0)
 __CPROVER_ensures(g_exc == 0 ==> (''' + SEL + ''' < $2->n))
@@ -175,7 +177,7 @@ def br_loops(ast, L, tf):
     t = lambda s: s.replace('$this', 'this').replace('$2', 'block_parameters')
     out = {1: t('''
   __CPROVER_assigns(__CPROVER_object_whole(this), length, is_m_block_preamble, seq_QueryResponse__cur, seq_MalformedMessage__cur, seq_BlockParameters__cur, umap_AddressEventCount_u64__cur, umap_present, %(G)s)
-  __CPROVER_loop_invariant(g_exc == 0 && RD_IN_MAP && (rd_indef1 ? indef : (!indef && length == rd_left1)))
+  __CPROVER_loop_invariant(g_exc == 0 && !g_raised && RD_IN_MAP && (rd_indef1 ? indef : (!indef && length == rd_left1)))
   __CPROVER_loop_invariant(g_kseen <= rd_cnt1 && rd_cnt1 <= (1UL << 60))
   __CPROVER_loop_invariant(g_K == 0 ==> (is_m_block_preamble == (g_kseen > 0)))
   __CPROVER_loop_invariant((is_m_block_preamble && %(IDX)s.has) ==> ((unsigned long)%(IDX)s.val < $2->n && ((unsigned long)%(IDX)s.val == $2->wi ==> (%(TPS)s == $2->wv.storage_parameters.ticks_per_second && VAL_HINTS_EQ($this->base.m_block_parameters.storage_parameters.storage_hints, $2->wv.storage_parameters.storage_hints)))))
@@ -213,7 +215,7 @@ UNITS.append(Unit('rdb.read', ('CdnsBlockRead::read', None), contract=BR_C, loop
                   lifted_stub=inst_stubs, pre_c='#define UMAP_ANY_KEY 1\n', extra_c=EXTRA_B, split=False, weight=3,
                   setup='  static struct CdnsBlockRead obj; struct CdnsDecoder dec; static struct seq_BlockParameters bp;\n  rd_init();\n'
                         '  g_wts_qr = &obj.base.m_query_responses.wv.time_offset.val; g_wts_mm = &obj.base.m_malformed_messages.wv.time_offset.val;\n'
-                        '  G_qr.n = 0; G_mm.n = 0;\n',
+                        '  G_qr.n = 0; G_mm.n = 0; g_raised = 0;\n',
                   args=['&obj', '&dec', '&bp'], props=['C01', 'C17', 'C08', 'C03'], timeout=1800,
                   post='  if (g_exc != 0) { CANARY("decoder exception reachable"); }\n  if (g_exc == 0 && obj.base.m_query_responses.wi < obj.base.m_query_responses.n && obj.base.m_query_responses.wv.time_offset.has) { CANARY("resolved record reachable"); }',
                   note='block map with any number of entries in any order (unknown, negative, repeated keys), definite or indefinite: the preamble is mandatory; the '
@@ -441,6 +443,7 @@ __CPROVER_requires(%(VP)s)
 __CPROVER_requires(%(lv)s.n == @N0 && @N0 < (1UL << 31))
 __CPROVER_assigns(%(lv)s, bt_%(rec)s__cur, g_bt_adds, %(G)s)
 __CPROVER_ensures(g_exc == 0 || g_exc == EXC_CdnsDecoderException || g_exc == EXC_CdnsDecoderEnd)
+__CPROVER_ensures((g_raised && !@RZ0) ==> g_exc != 0)
 __CPROVER_ensures(g_exc == 0 ==> (rd_depth == 1 && rd_topmap && !rd_expect_val && !rd_break_pending && !rd_bad && !rd_done1 && rd_cnt1 == @C0 + 1 && (rd_indef1 ? rd_left1 == @L0 : rd_left1 + 1 == @L0)))
 __CPROVER_ensures(g_exc == 0 ==> (rd_curkey == @K0 && g_kseen == @S0))
 __CPROVER_ensures(g_exc == 0 ==> %(lv)s.n == @N0 + rd_idx2)
@@ -454,7 +457,7 @@ def bti_loops(k):
         lv = 'cap->base.' + mem
         return {1: '''
   __CPROVER_assigns(length, %(lv)s, bt_%(rec)s__cur, g_bt_adds, %(G)s)
-  __CPROVER_loop_invariant(g_exc == 0 && !rd_bad && !rd_break_pending && rd_topmap && !rd_done1)
+  __CPROVER_loop_invariant(g_exc == 0 && !rd_bad && !rd_break_pending && rd_topmap && !rd_done1 && (g_raised != 0) == (@RZ0 != 0))
   __CPROVER_loop_invariant(indef ? (rd_depth == 2 && rd_indef2) : (length > 0 ? (rd_depth == 2 && !rd_indef2 && rd_left2 == length) : (rd_depth == 1 && !rd_expect_val)))
   __CPROVER_loop_invariant(rd_idx2 <= (1UL << 60) && %(lv)s.n == @N0 + rd_idx2)
   __CPROVER_loop_invariant(rd_depth == 2 ? (rd_expect_val && rd_cnt1 == @C0 && rd_left1 == @L0) : (rd_cnt1 == @C0 + 1 && (rd_indef1 ? rd_left1 == @L0 : rd_left1 + 1 == @L0)))
@@ -490,7 +493,7 @@ def bt_read_loops(ast, L, tf):
     tabs = ' && '.join('this->base.%s.n < (1UL << 31)' % t for t in BU.TABLES)
     return {1: '''
   __CPROVER_assigns(__CPROVER_object_whole(this), length, %(curs)s, g_bt_adds, %(G)s)
-  __CPROVER_loop_invariant(g_exc == 0 && RD_IN_MAP && (rd_indef1 ? indef : (!indef && length == rd_left1)))
+  __CPROVER_loop_invariant(g_exc == 0 && !g_raised && RD_IN_MAP && (rd_indef1 ? indef : (!indef && length == rd_left1)))
   __CPROVER_loop_invariant(g_kseen <= rd_cnt1 && rd_cnt1 <= (1UL << 60))
   __CPROVER_loop_invariant(%(tabs)s)
 %(perkey)s''' % {'G': G, 'curs': BTCURS, 'tabs': tabs,
@@ -498,11 +501,12 @@ def bt_read_loops(ast, L, tf):
 
 
 BTR_C = '''
-__CPROVER_requires(__CPROVER_w_ok($this, sizeof(*$this)) && g_exc == 0 && RD_FRESH)
+__CPROVER_requires(__CPROVER_w_ok($this, sizeof(*$this)) && g_exc == 0 && RD_FRESH && !g_raised)
 __CPROVER_requires(''' + ' && '.join('$this->base.%s.n < (1UL << 31)' % t for t in BU.TABLES) + ''')
 __CPROVER_assigns(__CPROVER_object_whole($this), ''' + BTCURS + ''', g_bt_adds, ''' + G + ''')
 __CPROVER_ensures(g_exc == 0 || g_exc == EXC_CdnsDecoderException || g_exc == EXC_CdnsDecoderEnd)
 __CPROVER_ensures(g_exc == 0 ==> RD_MAP_DONE)
+__CPROVER_ensures(g_raised ==> g_exc != 0)
 ''' + ''.join('__CPROVER_ensures((g_exc == 0 && g_K == %d) ==> (g_kseen == 0 ? $this->base.%s.n == @T0_%s : (g_kseen == 1 ==> (g_aseen && $this->base.%s.n == @T0_%s + g_alen))))\n' % (BU.TKEY[t], t, t, t, t) for t in BU.TABLES)
 BTI_STUBS = R.DEC_STUBS + ['BlockTable_[A-Za-z]+__(size|op_index|find|add|add_value__p_[A-Za-z]+|clear)']
 for k in range(1, 10):
@@ -517,7 +521,7 @@ UNITS.append(Unit('rdb.read_blocktables', ('CdnsBlockRead::read_blocktables', No
                   stubs=BTI_STUBS, gen_stubs=R.NESTED_RD, arrays_uf=False, auto_inline=AUTO, lifted_stub=bti_stubs, split=False,
                   ghost=[('unsigned long', 'T0_' + t, '$this->base.%s.n' % t) for t in BU.TABLES],
                   extra_c='struct seq_u8 g_OpCodesDefault; struct seq_u16 g_RrTypesDefault;\n',
-                  setup='  static struct CdnsBlockRead obj; struct CdnsDecoder dec;\n  rd_init();\n  __CPROVER_assume(' + ' && '.join('obj.base.%s.n < (1UL << 31)' % t for t in BU.TABLES) + ');\n',
+                  setup='  static struct CdnsBlockRead obj; struct CdnsDecoder dec;\n  rd_init(); g_raised = 0;\n  __CPROVER_assume(' + ' && '.join('obj.base.%s.n < (1UL << 31)' % t for t in BU.TABLES) + ');\n',
                   args=['&obj', '&dec'], props=['C08', 'C01', 'C03'], timeout=1800, post='  if (g_exc != 0) { CANARY("decoder exception reachable"); }',
                   note='tables map with any number of entries in any order (unknown, negative, repeated keys), definite or indefinite: consumed exactly; each known key '
                        'reads one array into its table; every other value is skipped as one item'))
